@@ -27,6 +27,8 @@ from ..astutil import (text, access_path, calls_in, func_params, stmts_of, is_co
                        store_targets, fold)
 from ..loader import where, AnalysisError
 from ..paths import Enumerator
+from ..terms import Terms, PathEnv
+from .. import poly
 from .c04 import drop_outside_domain
 
 FEATS = ("domination_counter", "front_number", "dominate")
@@ -95,48 +97,69 @@ def run(ctx):
         ctx.violated("R3", C, where(mod, (reset or [fn])[0]), "the bookkeeping features are not all reset for every member before the pair loop (found %s): stale counters/lists from a previous sort corrupt the ranks" % sorted(r3))
 
     # ------------------------------------------------------------ R1 coverage
-    # outer: for i, p in enumerate(pop)  |  for i in range(len(pop))
-    ivar = pvar = None
-    if isinstance(outer.iter, ast.Call) and access_path(outer.iter.func) == "enumerate" and access_path(outer.iter.args[0]) == pop \
-            and isinstance(outer.target, ast.Tuple):
-        ivar, pvar = outer.target.elts[0].id, outer.target.elts[1].id
-    elif range_bounds(outer.iter) and isinstance(outer.target, ast.Name):
-        rb = range_bounds(outer.iter)
-        if (rb[0] is None or text(rb[0]) == "0") and text(rb[1]) in ("len(%s)" % pop, "len(%s) - 1" % pop):
-            ivar = outer.target.id
-            for s in outer.body:
-                if isinstance(s, ast.Assign) and text(s.value) == "%s[%s]" % (pop, ivar):
-                    pvar = access_path(s.targets[0])
-    rb = range_bounds(inner.iter)
-    jvar = inner.target.id if isinstance(inner.target, ast.Name) else None
-    if ivar is None or pvar is None or rb is None or jvar is None:
-        ctx.inconclusive("R1", C, where(mod, outer), "loop headers not recognised (%s / %s)" % (text(outer.iter), text(inner.iter)), key="pair-range")
-        return
-    start_t = text(rb[0]) if rb[0] is not None else "0"
-    stop_t = text(rb[1])
-    if start_t.replace(" ", "") == "%s+1" % ivar and stop_t == "len(%s)" % pop and rb[2] is None:
-        ctx.holds("R1", C, where(mod, inner), "pairs (i, j) with i < j < len: every unordered pair exactly once", key="pair-range")
-    elif start_t == ivar and stop_t == "len(%s)" % pop:
-        ctx.violated("R1", C, where(mod, inner), "inner loop starts at i: every member is also compared with itself (harmless only for an irreflexive comparator; with the epsilon comparator a member would count as dominating itself)", key="pair-range")
-    elif stop_t != "len(%s)" % pop or start_t.replace(" ", "") not in ("%s+1" % ivar,):
-        ctx.violated("R1", C, where(mod, inner), "inner range(%s, %s) does not enumerate every pair (i, j), i < j < len(%s): some pairs are never compared" % (start_t, stop_t, pop), key="pair-range")
-    qvar = None
-    for s in inner.body:
-        if isinstance(s, ast.Assign) and text(s.value) == "%s[%s]" % (pop, jvar):
-            qvar = access_path(s.targets[0])
-    if qvar is None:
-        ctx.inconclusive("R1", C, where(mod, inner), "second member of the pair not bound from %s[%s]" % (pop, jvar), key="pair-compare")
-        return
+    # the two members of a pair as elements of the population: pop[I] and pop[J(inner index)]
+    TT = Terms(fn)
     cmp_stmt = [s for s in stmts_of(inner) if isinstance(s, ast.Assign) and isinstance(s.value, ast.Call) and (access_path(s.value.func) or "").endswith(".compare")]
     if len(cmp_stmt) != 1 or len(cmp_stmt[0].value.args) != 2:
         ctx.inconclusive("R1", C, where(mod, inner), "comparator call not recognised", key="pair-compare")
         return
     cs = cmp_stmt[0]
     flag = access_path(cs.targets[0])
-    a0, a1 = text(cs.value.args[0]), text(cs.value.args[1])
-    if {a0, a1} != {pvar + ".costs_signed", qvar + ".costs_signed"}:
-        ctx.violated("R1", C, where(mod, cs), "the comparator is applied to (%s, %s), not to the signed costs of the two members of the pair" % (a0, a1), key="pair-compare")
+    io, ii = TT.loop_of(outer), TT.loop_of(inner)
+
+    def member_index(arg):
+        """index expression E when arg denotes pop[E].costs_signed (loop variables replaced by elements)"""
+        x = TT.expand(arg, at=cs, elems=True)
+        if isinstance(x, ast.Attribute) and x.attr == "costs_signed" and isinstance(x.value, ast.Subscript) and access_path(x.value.value) == pop:
+            return x.value.slice
+        return None
+    e0, e1 = member_index(cs.value.args[0]), member_index(cs.value.args[1])
+    ivar = io.index if io is not None else None
+    jidx = ii.index if ii is not None else None
+    if e0 is None or e1 is None or ivar is None or jidx is None:
+        ctx.inconclusive("R1", C, where(mod, outer), "loop headers not recognised (%s / %s)" % (text(outer.iter), text(inner.iter)), key="pair-range")
         return
+    # which argument is the outer member
+    if access_path(e0) == ivar:
+        ei, ej, first_is_outer = e0, e1, True
+    elif access_path(e1) == ivar:
+        ei, ej, first_is_outer = e1, e0, False
+    else:
+        ctx.violated("R1", C, where(mod, cs), "the comparator is applied to (%s, %s), not to the signed costs of the two members of the pair" % (text(cs.value.args[0]), text(cs.value.args[1])), key="pair-compare")
+        return
+    # outer range must cover [0, len) or [0, len-1)
+    o_lo = io.lo
+    o_hi = TT.expand(io.hi, at=outer) if io.hi is not None else None
+    outer_ok = (o_lo is None or text(o_lo) == "0") and o_hi is not None and io.step is None and \
+        (poly.equal(o_hi, poly.parse("len(%s)" % pop)) or poly.equal(o_hi, poly.parse("len(%s) - 1" % pop)))
+    j_lo = ii.lo if ii.lo is not None else ast.Constant(value=0)
+    j_hi = ii.hi
+    try:
+        start = poly.norm(ej, {jidx: TT.expand(j_lo, at=inner)})
+        stop = poly.norm(ej, {jidx: TT.expand(j_hi, at=inner)}) if j_hi is not None else None
+        slope = poly.norm(ej, {jidx: poly.parse("1")}) - poly.norm(ej, {jidx: poly.parse("0")})
+    except poly.NotPolynomial:
+        start = stop = slope = None
+    if not outer_ok or stop is None or slope is None or not slope.is_const() or slope.const() != 1 or ii.step is not None:
+        ctx.inconclusive("R1", C, where(mod, outer), "loop headers not recognised (%s / %s)" % (text(outer.iter), text(inner.iter)), key="pair-range")
+        return
+    want_start, want_stop = poly.norm(poly.parse("%s + 1" % ivar)), poly.norm(poly.parse("len(%s)" % pop))
+    if start == want_start and stop == want_stop:
+        ctx.holds("R1", C, where(mod, inner), "pairs (i, j) with i < j < len: every unordered pair exactly once", key="pair-range")
+    elif start == poly.norm(poly.parse(ivar)) and stop == want_stop:
+        ctx.violated("R1", C, where(mod, inner), "inner loop starts at i: every member is also compared with itself (harmless only for an irreflexive comparator; with the epsilon comparator a member would count as dominating itself)", key="pair-range")
+    else:
+        ctx.violated("R1", C, where(mod, inner), "inner loop %s visits members [%s, %s): it does not enumerate every pair (i, j), i < j < len(%s): some pairs are never compared" % (text(inner.iter), poly.key_of(start), poly.key_of(stop), pop), key="pair-range")
+    # names of the two members (used by the bookkeeping rules below)
+    def member_name(arg):
+        b = arg.value if isinstance(arg, ast.Attribute) else None
+        return access_path(b) if b is not None else None
+    a0n, a1n = member_name(cs.value.args[0]), member_name(cs.value.args[1])
+    if a0n is None or a1n is None or "[" in a0n or "[" in a1n:
+        ctx.inconclusive("R1", C, where(mod, inner), "the two members of the pair are not bound to names", key="pair-compare")
+        return
+    pvar, qvar = (a0n, a1n) if first_is_outer else (a1n, a0n)
+    a0, a1 = text(cs.value.args[0]), text(cs.value.args[1])
     first, second = (pvar, qvar) if a0.startswith(pvar + ".") else (qvar, pvar)
     paths = Enumerator(loop_counts=(0, 1)).function_paths(body_fn(inner.body, fn.args, inner.lineno))
     paths = drop_outside_domain(paths, flag, (0, 1, 2))
@@ -194,85 +217,226 @@ def run(ctx):
     else:
         ctx.holds("R2", C, where(mod, inner), "verdict 1: %s's list gets %s.id and %s's counter += 1; verdict 2: mirrored; verdict 0: nothing" % (first, second, second))
 
+    # ------------------------------------------------------------ front lists as abstract indices
+    # A front list is denoted by its 0-based position in the list of fronts, written a*F + b with F the value
+    # of the front counter at the head of the peeling loop (a = 0: absolute position).  Names bound to a front
+    # list (first_front, current_front, ...) and subscripts fronts[front_number + c] are both resolved to such
+    # positions, so the rules below do not depend on how the lists are referred to.
+    w = whiles[0]
+    FN = None          # the front counter
+    for s in top:
+        if isinstance(s, ast.Assign) and isinstance(s.targets[0], ast.Name) and is_const(s.value) and isinstance(const_value(s.value), int) \
+                and not isinstance(const_value(s.value), bool) and any(isinstance(x, ast.AugAssign) and access_path(x.target) == s.targets[0].id for x in w.body):
+            FN = s.targets[0].id
+    if FN is None:
+        ctx.inconclusive("R4", C, where(mod, fn), "front counter not recognised")
+        ctx.inconclusive("R5", C, where(mod, w), "front counter not recognised")
+        return
+
+    class FrontEnv:
+        def __init__(self):
+            self.F = None          # (a, b): value of the counter
+            self.L = None          # (a, b): number of front lists
+            self.PF = None         # name of the list of fronts
+            self.alias = {}        # name -> (a, b) position
+            self.fresh = set()     # names bound to a new empty list not yet placed
+
+        def copy(self):
+            o = FrontEnv()
+            o.F, o.L, o.PF, o.alias, o.fresh = self.F, self.L, self.PF, dict(self.alias), set(self.fresh)
+            return o
+
+        def lin(self, e):
+            """(a, b) for an integer expression linear in the counter"""
+            if is_const(e) and isinstance(const_value(e), int):
+                return (0, const_value(e))
+            if access_path(e) == FN:
+                return self.F
+            if isinstance(e, ast.BinOp) and isinstance(e.op, (ast.Add, ast.Sub)):
+                l, r = self.lin(e.left), self.lin(e.right)
+                if l is None or r is None:
+                    return None
+                sg = 1 if isinstance(e.op, ast.Add) else -1
+                return (l[0] + sg * r[0], l[1] + sg * r[1])
+            if isinstance(e, ast.Call) and access_path(e.func) == "len" and e.args and access_path(e.args[0]) == self.PF:
+                return self.L
+            return None
+
+        def pos(self, e):
+            """position of the front list denoted by e, or None"""
+            if isinstance(e, ast.Name) and e.id in self.alias:
+                return self.alias[e.id]
+            if isinstance(e, ast.Subscript) and access_path(e.value) == self.PF and self.PF is not None and not isinstance(e.slice, ast.Slice):
+                k = self.lin(e.slice)
+                if k is None:
+                    return None
+                if k[0] == 0 and k[1] < 0 and self.L is not None:       # negative literal: from the end
+                    return (self.L[0], self.L[1] + k[1])
+                return k
+            return None
+
+        def step(self, s):
+            """effect of a simple statement; returns False when it touches the front structure in an unknown way"""
+            if isinstance(s, ast.Assign) and len(s.targets) == 1 and isinstance(s.targets[0], ast.Name):
+                t, v = s.targets[0].id, s.value
+                if t == FN:
+                    k = self.lin(v)
+                    if k is None:
+                        return False
+                    self.F = k
+                    return True
+                if isinstance(v, ast.List) and not v.elts:
+                    self.fresh.add(t)
+                    self.alias.pop(t, None)
+                    return True
+                if isinstance(v, ast.List) and self.PF is None and all((isinstance(x, ast.List) and not x.elts) or (isinstance(x, ast.Name) and x.id in self.fresh) for x in v.elts) and v.elts:
+                    self.PF = t
+                    self.L = (0, len(v.elts))
+                    for i_, x in enumerate(v.elts):
+                        if isinstance(x, ast.Name):
+                            self.alias[x.id] = (0, i_)
+                            self.fresh.discard(x.id)
+                    return True
+                p_ = self.pos(v)
+                if p_ is not None:
+                    self.alias[t] = p_
+                    self.fresh.discard(t)
+                    return True
+                if t in self.alias or t in self.fresh or t == self.PF:
+                    return False
+                return True
+            if isinstance(s, ast.AugAssign) and access_path(s.target) == FN:
+                k = self.lin(s.value)
+                if k is None or k[0] != 0 or not isinstance(s.op, (ast.Add, ast.Sub)):
+                    return False
+                sg = 1 if isinstance(s.op, ast.Add) else -1
+                self.F = (self.F[0], self.F[1] + sg * k[1])
+                return True
+            if isinstance(s, ast.Expr) and isinstance(s.value, ast.Call) and method_call(s.value):
+                recv, meth, call = method_call(s.value)
+                if access_path(recv) == self.PF and self.PF is not None:
+                    if meth == "append" and len(call.args) == 1:
+                        a = call.args[0]
+                        if isinstance(a, ast.List) and not a.elts:
+                            self.L = (self.L[0], self.L[1] + 1)
+                            return True
+                        if isinstance(a, ast.Name) and a.id in self.fresh:
+                            self.alias[a.id] = self.L
+                            self.fresh.discard(a.id)
+                            self.L = (self.L[0], self.L[1] + 1)
+                            return True
+                        return False
+                    if meth == "pop" and not call.args:
+                        self.L = (self.L[0], self.L[1] - 1)
+                        return True
+                    return False
+            return True
+
+    fe = FrontEnv()
+    pre_ok = True
+    for s in top[:top.index(w)]:
+        if isinstance(s, (ast.For, ast.While, ast.If, ast.Try, ast.With)):
+            continue
+        pre_ok = fe.step(s) and pre_ok
+    if not pre_ok or fe.PF is None or fe.F is None or fe.F[0] != 0:
+        ctx.inconclusive("R4", C, where(mod, fn), "initial front structure not recognised")
+        ctx.inconclusive("R5", C, where(mod, w), "initial front structure not recognised")
+        return
+    F0, L0 = fe.F[1], fe.L[1]
+    fronts_var = fe.PF
+
     # ------------------------------------------------------------ R4 zero-test placement
     pos_inner = outer.body.index(inner)
     zero_ifs = [s for s in outer.body if isinstance(s, ast.If) and "domination_counter" in text(s.test)]
     misplaced = [s for s in stmts_of(inner) if isinstance(s, ast.If) and "domination_counter" in text(s.test) and "== 0" in text(s.test)]
-    init_front = None
-    for s in top:
-        if isinstance(s, ast.Assign) and access_path(s.targets[0]) == "front_number" and is_const(s.value):
-            init_front = const_value(s.value)
-    fronts_var = None
-    for s in top:
-        if isinstance(s, ast.Assign) and isinstance(s.value, ast.List) and len(s.value.elts) == 1 and isinstance(s.value.elts[0], ast.List):
-            fronts_var = access_path(s.targets[0])
     if misplaced:
         ctx.violated("R4", C, where(mod, misplaced[0]), "the 'counter == 0 => first front' test is inside the inner loop: it runs before all pairs containing the member were compared")
     elif len(zero_ifs) == 1 and outer.body.index(zero_ifs[0]) > pos_inner:
         zi = zero_ifs[0]
         t = zi.test
         okt = isinstance(t, ast.Compare) and feat(t.left) == (pvar, "domination_counter") and isinstance(t.ops[0], ast.Eq) and is_const(t.comparators[0]) and const_value(t.comparators[0]) == 0
-        sets_front = [s for s in zi.body if isinstance(s, ast.Assign) and feat(s.targets[0]) == (pvar, "front_number") and access_path(s.value) == "front_number"]
-        app = [c for s in zi.body for c in calls_in(s) if method_call(c) and method_call(c)[1] == "append" and c.args and access_path(c.args[0]) == pvar
-               and text(method_call(c)[0]).replace(" ", "") == "%s[front_number-1]" % fronts_var]
+        sets_front = [s for s in zi.body if isinstance(s, ast.Assign) and feat(s.targets[0]) == (pvar, "front_number")]
+        rank_vals = [fe.lin(s.value) for s in sets_front]
+        apps = [c for s in zi.body for c in calls_in(s) if method_call(c) and method_call(c)[1] == "append" and c.args and access_path(c.args[0]) == pvar]
+        dests = [fe.pos(method_call(c)[0]) for c in apps]
         for s in sets_front:
             handled_writes.add(id(s))
-        if okt and sets_front and app and init_front == 1:
-            ctx.holds("R4", C, where(mod, zi), "after p's inner loop: counter == 0 => front 1, member put into the first front list")
-        elif init_front != 1:
-            ctx.violated("R4", C, where(mod, zi), "front numbering starts at %r, the property requires the non-dominated members to get front 1" % (init_front,))
-        else:
+        if F0 != 1:
+            ctx.violated("R4", C, where(mod, zi), "front numbering starts at %r, the property requires the non-dominated members to get front 1" % (F0,))
+        elif not okt:
             ctx.violated("R4", C, where(mod, zi), "the first-front test/assignment is not `counter == 0 -> front_number, append to the first front` (%s)" % text(t))
+        elif len(sets_front) == 1 and rank_vals == [(0, 1)] and len(apps) == 1 and dests == [(0, 0)]:
+            ctx.holds("R4", C, where(mod, zi), "after p's inner loop: counter == 0 => front 1, member put into the first front list")
+        elif len(sets_front) == 1 and rank_vals[0] is not None and rank_vals[0] != (0, 1):
+            ctx.violated("R4", C, where(mod, zi), "a non-dominated member is given front number %s, expected 1" % (rank_vals[0][1],))
+        elif len(apps) == 1 and dests[0] is not None and dests[0] != (0, 0):
+            ctx.violated("R4", C, where(mod, zi), "a non-dominated member is put into front list %d, expected the first front list" % dests[0][1])
+        elif not sets_front or not apps:
+            ctx.violated("R4", C, where(mod, zi), "the first-front test/assignment is not `counter == 0 -> front_number, append to the first front` (%s)" % text(t))
+        else:
+            ctx.inconclusive("R4", C, where(mod, zi), "first-front assignment / destination list not resolved")
     elif zero_ifs and outer.body.index(zero_ifs[0]) < pos_inner:
         ctx.violated("R4", C, where(mod, zero_ifs[0]), "the 'counter == 0' test for a member runs before its inner loop: pairs with later members are not yet counted")
     else:
         ctx.inconclusive("R4", C, where(mod, outer), "first-front test not found after the inner loop")
 
-    # ------------------------------------------------------------ R5 peeling
-    w = whiles[0]
+    # ------------------------------------------------------------ R5 peeling (induction over the loop)
     problems = []
-    F_off = 0     # front_number == F + F_off while walking the body
-
-    def idx_of(sub):
-        """offset d of <fronts>[front_number + d] relative to current front_number"""
-        if isinstance(sub, ast.Subscript) and access_path(sub.value) == fronts_var:
-            sl = sub.slice
-            if access_path(sl) == "front_number":
-                return 0
-            if isinstance(sl, ast.BinOp) and access_path(sl.left) == "front_number" and is_const(sl.right):
-                c = const_value(sl.right)
-                return c if isinstance(sl.op, ast.Add) else -c
-        return None
-    # while test: len(fronts[front_number - 1]) > 0
+    # head of the loop: counter F, L = F + (L0 - F0) lists, loop-carried aliases keep their position relative to F
+    he = fe.copy()
+    he.F = (1, 0)
+    he.L = (1, L0 - F0)
+    he.alias = {k: (1, v[1] - F0) if v[0] == 0 else v for k, v in fe.alias.items()}
+    carried = dict(he.alias)
     wt = w.test
-    d_test = None
-    if isinstance(wt, ast.Compare) and isinstance(wt.left, ast.Call) and access_path(wt.left.func) == "len":
-        d_test = idx_of(wt.left.args[0])
-    elif isinstance(wt, ast.Subscript):
-        d_test = idx_of(wt)
-    if d_test != -1:
-        problems.append(("inconclusive" if d_test is None else "violated", "the loop condition tests front list index front_number%+d, expected the last filled front (front_number - 1)" % (d_test or 0)))
-    n_lists = 0   # lists appended so far in the body (relative)
+    tested = None
+    tnode = None
+    if isinstance(wt, ast.Compare) and isinstance(wt.left, ast.Call) and access_path(wt.left.func) == "len" and len(wt.ops) == 1 \
+            and ((isinstance(wt.ops[0], ast.Gt) and text(wt.comparators[0]) == "0") or (isinstance(wt.ops[0], ast.NotEq) and text(wt.comparators[0]) == "0")
+                 or (isinstance(wt.ops[0], ast.GtE) and text(wt.comparators[0]) == "1")):
+        tnode = wt.left.args[0]
+    elif isinstance(wt, (ast.Subscript, ast.Name)):
+        tnode = wt
+    elif isinstance(wt, ast.Call) and access_path(wt.func) == "len" and wt.args:
+        tnode = wt.args[0]
+    if tnode is not None:
+        tested = he.pos(tnode)
+    if tested is None:
+        problems.append(("inconclusive", "loop condition %s is not a non-emptiness test of a front list" % text(wt)))
+    elif tested != (1, -1):
+        problems.append(("violated", "the loop condition tests front list index front_number%+d, expected the last filled front (front_number - 1)" % tested[1]))
+    be = he.copy()
     loop_prev = None
+    body_ok = True
     for s in w.body:
-        if isinstance(s, ast.AugAssign) and access_path(s.target) == "front_number" and isinstance(s.op, ast.Add) and is_const(s.value):
-            F_off += const_value(s.value)
-        elif isinstance(s, ast.Expr) and isinstance(s.value, ast.Call) and method_call(s.value) and access_path(method_call(s.value)[0]) == fronts_var \
-                and method_call(s.value)[1] == "append":
-            n_lists += 1
-        elif isinstance(s, ast.For):
-            loop_prev = (s, F_off, n_lists)
+        if isinstance(s, ast.For):
+            loop_prev = (s, be.copy())
+            continue
+        if isinstance(s, (ast.While, ast.If, ast.Try, ast.With)):
+            body_ok = False
+            continue
+        body_ok = be.step(s) and body_ok
+    if not body_ok:
+        problems.append(("inconclusive", "the peeling loop changes the front structure in a way the rule does not follow"))
     if loop_prev is None:
         problems.append(("inconclusive", "loop over the previous front not found"))
     else:
-        lp, off_at_loop, lists_at_loop = loop_prev
-        d = idx_of(lp.iter)
-        # absolute (0-based) index iterated = F + off + d ; previous front (tested non-empty) = F - 1
-        if d is None or off_at_loop + d != -1:
-            problems.append(("violated" if d is not None else "inconclusive", "the peel iterates front list index F%+d, expected the front that was just tested non-empty (F-1)" % (off_at_loop + (d or 0))))
-        # final F_off after body must be +1 and exactly one list appended
-        if F_off != 1 or n_lists != 1:
-            problems.append(("violated", "per peel the front index grows by %d and %d list(s) are appended (expected 1 and 1)" % (F_off, n_lists)))
+        lp, le = loop_prev
+        it_pos = le.pos(lp.iter)
+        if it_pos is None:
+            problems.append(("inconclusive", "the peel iterates %s, which is not recognised as a front list" % text(lp.iter)))
+        elif it_pos != (1, -1):
+            problems.append(("violated", "the peel iterates front list index F%+d, expected the front that was just tested non-empty (F-1)" % it_pos[1]))
+        # per peel: the counter grows by one, one list is added, carried names keep their relative position
+        if be.F != (1, 1) or be.L != (1, L0 - F0 + 1):
+            problems.append(("violated", "per peel the front index grows by %d and %d list(s) are appended (expected 1 and 1)" % (be.F[1], be.L[1] - (L0 - F0))))
+        for k_, v_ in carried.items():
+            used = any(isinstance(x, ast.Name) and x.id == k_ for x in ast.walk(wt)) or any(isinstance(x, ast.Name) and x.id == k_ for x in ast.walk(lp.iter))
+            if used and be.alias.get(k_) != (1, v_[1] + 1):
+                got = be.alias.get(k_)
+                problems.append(("violated" if got is not None else "inconclusive",
+                                 "`%s` is not moved on to the next front at the end of a peel (position F%+d instead of F%+d): the same front is peeled again" % (k_, (got or (1, 0))[1] - 1, v_[1])))
+        rank_at_loop = le.F
         m = lp.target.id if isinstance(lp.target, ast.Name) else None
         idloops = [s for s in lp.body if isinstance(s, ast.For) and feat(s.iter) == (m, "dominate")]
         if len(idloops) != 1:
@@ -308,22 +472,28 @@ def run(ctx):
                     for rnode in ranks:
                         handled_writes.add(id(rnode))
                     apps = [c for e in p.events if e.kind == "stmt" for c in calls_in(e.node) if method_call(c) and method_call(c)[1] == "append"
-                            and c.args and access_path(c.args[0]) == qn and access_path(method_call(c)[0].value if isinstance(method_call(c)[0], ast.Subscript) else method_call(c)[0]) == fronts_var]
+                            and c.args and access_path(c.args[0]) == qn and le.pos(method_call(c)[0]) is not None]
+                    other_apps = [c for e in p.events if e.kind == "stmt" for c in calls_in(e.node) if method_call(c) and method_call(c)[1] == "append"
+                                  and c.args and access_path(c.args[0]) == qn and le.pos(method_call(c)[0]) is None]
                     if zero is True:
                         nn = [e for e in p.events if e.kind == "guard" and "front_number" in text(e.node) and "None" in text(e.node)]
-                        already = any((not e.val) if isinstance(e.node.ops[0], ast.Is) else e.val for e in nn if isinstance(e.node, ast.Compare)) if False else False
                         skipped = any(isinstance(e.node, ast.Compare) and isinstance(e.node.ops[0], ast.Is) and not e.val for e in nn)
                         if skipped:
                             continue
-                        if len(ranks) != 1 or access_path(ranks[0].value) != "front_number":
+                        if other_apps:
+                            problems.append(("inconclusive", "a newly ranked member is appended to %s, which is not recognised as a front list" % text(method_call(other_apps[0])[0])))
+                            continue
+                        rv = [le.lin(r_.value) for r_ in ranks]
+                        if len(ranks) != 1 or rv[0] is None or rv[0][0] != 1:
                             problems.append(("violated", "a member whose counter reaches zero is not given the current front number"))
-                        elif off_at_loop != 1:
-                            problems.append(("violated", "members peeled from front F get rank F%+d, expected F+1" % off_at_loop))
-                        if len(apps) != 1 or idx_of(method_call(apps[0])[0]) is None or off_at_loop + idx_of(method_call(apps[0])[0]) != 0:
+                        elif rv[0] != (1, 1):
+                            problems.append(("violated", "members peeled from front F get rank F%+d, expected F+1" % rv[0][1]))
+                        dest = le.pos(method_call(apps[0])[0]) if len(apps) == 1 else None
+                        if len(apps) != 1 or dest != (1, 0):
                             problems.append(("violated", "a newly ranked member is not appended to the list of its own front"))
-                    elif zero is False and (ranks or apps):
+                    elif zero is False and (ranks or apps or other_apps):
                         problems.append(("violated", "a member is ranked although its counter has not reached zero"))
-                    elif zero is None and (ranks or apps):
+                    elif zero is None and (ranks or apps or other_apps):
                         problems.append(("violated", "a member is ranked without testing that its counter reached zero"))
     viol = [m_ for k, m_ in problems if k == "violated"]
     inc = [m_ for k, m_ in problems if k == "inconclusive"]
